@@ -251,7 +251,7 @@ func checkWholeDocument(p *core.Program, r *core.Report, rule, owner string, fn 
 				if callee == nil {
 					continue
 				}
-				if callee.Pkg != nil && core.InRepo(callee.Pkg.Pkg.Path()) && callee.Signature.Recv() == nil {
+				if callee.Pkg != nil && core.InRepo(callee.Pkg.Pkg.Path()) && callee.Pkg == f.Pkg {
 					// a plain in-repo helper of the action/handler (decode helpers); methods of library-like types are not followed
 					if f.Pkg == callee.Pkg || (f.Parent() != nil && callee.Pkg != nil) {
 						sites[callee] = append(sites[callee], c)
